@@ -29,6 +29,8 @@ type byzStrategy struct {
 	// padApology: the apology message carries one more entry, for a keyper that never accused,
 	// with an evaluation outside the scalar field (the entries in front stay what they are)
 	padApology bool
+	// padInRange: the extra entry's evaluation is a field element that contradicts the commitment
+	padInRange bool
 	// offset: message kind -> blocks into its phase at which it is sent (0 = first block)
 	offset map[string]int64
 	// lateCheckIn: see step()
@@ -67,6 +69,7 @@ func newByzKeyper(w *worldB, idx int, c *simkit.Chooser, victims []int) *byzKeyp
 		s.late[k] = c.Chance(150, "byz-late")
 	}
 	s.padApology = c.Chance(400, "byz-padded-apology")
+	s.padInRange = c.Bool("byz-padded-apology-in-range")
 	s.offset = map[string]int64{}
 	for _, k := range []string{"commitment", "eval", "accusation", "apology"} {
 		s.offset[k] = int64(c.Intn(3, "byz-blocks-into-phase")) // phases are at least 3 blocks long
@@ -249,11 +252,16 @@ func (b *byzKeyper) onBlocks() {
 			accusers = append(accusers, b.members[i])
 			evals = append(evals, ev)
 		}
-		if len(accusers) > 0 && b.strat.padApology {
+		if b.strat.padApology && (len(accusers) > 0 || b.strat.padInRange) {
 			for i := range b.members {
 				if i != b.idx && !b.accusers[i] {
 					accusers = append(accusers, b.members[i])
-					evals = append(evals, new(big.Int).Lsh(big.NewInt(1), 255)) // >= the field order
+					if b.strat.padInRange {
+						// an unsolicited apology: in range, but not what the commitment says
+						evals = append(evals, new(big.Int).Add(b.poly.EvalForKeyper(i), big.NewInt(3)))
+					} else {
+						evals = append(evals, new(big.Int).Lsh(big.NewInt(1), 255)) // >= the field order
+					}
 					b.w.r.Probe("byz-padded-apology")
 					break
 				}
